@@ -28,14 +28,14 @@ def frdGetitem (self : PyFRD K) (key : List Nat × List Nat) : Except Err (PyFRD
 Defaults: squeeze=None.
   note: a branch that evaluates the interpolating spline (`splev`) is external: `throw Err.notImplemented`
   note: `_process_frequency_response(self, omega, out, squeeze=squeeze)` is read as `out` (the squeeze processing is property C18's, with its own source tie) -/
-def frdEval (self : PyFRD K) (omega : PVec) : Except Err (PArr3 K) :=
+def frdEval (self : PyFRD K) (omega : FVec) : Except Err (PArr3 K) :=
   do
-    let omega_array : PVec := (PVec.array1 omega)
-    if ((PBVec.any (PVec.gtNum (PVec.imag omega_array) (0 : ℚ))) = true) then
+    let omega_array : FVec := (FVec.array1 omega)
+    if ((PBVec.any (FVec.gtNum (FVec.imag omega_array) (0 : ℚ))) = true) then
       throw Err.shape
     else
       if ((!(PyFRD.smooth self)) = true) then
-        let matches' : List (List Nat) := (List.map (fun (w : ℚ) => (PBVec.flatnonzero (PVec.eqNum (PyFRD.omega self) w))) (PVec.toList omega_array))
+        let matches' : List (List Nat) := (List.map (fun (w : ℚ) => (PBVec.flatnonzero (FVec.eqNum (PyFRD.omega self) w))) (FVec.toList omega_array))
         if ((List.any matches' (fun (match' : List Nat) => decide (match'.length = (0 : Nat)))) = true) then
           throw Err.missing
         else
